@@ -111,7 +111,10 @@ def run(ctx):
     ctx.rng.shuffle(scs)
     chosen = regression() + scs
     s, nlines = drive_and_judge(ctx, chosen, sweep=16 if quick else 300, variants="all", shards=4 if quick else 6)
+    from checks import wiring_rider
+    wr = wiring_rider.run(ctx, PID)
     ctx.cov.update(dict(
+        wiring_rider=wr,
         states=states, transitions=trans, traces_validated_against_impl=s["runs"],
         samples=s["samples"][:2], model_runs=consts, scenarios_emitted=emitted, scenarios_replayed=s["scenarios"],
         reconciles=s["reconciles"], sweep_runs=s["sweep_runs"], runs_by_syncer=s["runs_by_syncer"], events=nlines,
@@ -134,6 +137,9 @@ def run(ctx):
 def replay(ctx, path):
     with open(path) as f:
         sc = json.load(f)
+    if sc.get("rider") == "wiring":
+        from checks import wiring_rider
+        return wiring_rider.replay(ctx, path)
     if sc.get("seed"):
         ctx.seed = int(sc["seed"])
     s, nlines = drive_and_judge(ctx, [sc])
